@@ -96,12 +96,29 @@ def check_bank_entry(rec: Rec, table, e, n):
     return True
 
 
+def check_key_consistency(rec: Rec, banks):
+    """Rows that share a (country, bank code) key describe one bank: they must agree on the Bundesbank method, otherwise
+    "the method of their bank" (C07) is not defined and the bank found again from an IBAN is not the listed one."""
+    by_key = {}
+    for n, e in enumerate(banks):
+        if e.get("country_code") and e.get("bank_code"):
+            by_key.setdefault((e["country_code"], e["bank_code"]), []).append((n, e))
+    for (cc, code), rows in sorted(by_key.items()):
+        methods = {e.get("checksum_algo") for _, e in rows}
+        if len(methods) > 1:
+            rec.fail(f"conflicting_rows|checksum_algo|{cc}", "rows_of_one_key_agree",
+                     {"key": [cc, code], "rows": [{"index": n, "checksum_algo": e.get("checksum_algo"), "primary": e.get("primary"),
+                                                   "name": e.get("name")} for n, e in rows]}, "one method", sorted(map(str, methods)))
+    return len(by_key)
+
+
 def pure_checks(rec: Rec, table, banks):
     for cc, spec in sorted(table.items()):
         check_country(rec, cc, spec)
     fits = []
     for n, e in enumerate(banks):
         fits.append(check_bank_entry(rec, table, e, n))
+    check_key_consistency(rec, banks)
     return fits
 
 
@@ -311,6 +328,8 @@ def run(ctx):
         check_country(rec, cc, spec)
         rec.case("country-entry", ("country", cc), {"country": cc, "bban_spec": spec.get("bban_spec")} if cc in ("DE", "MU") else None)
     rec.exhaustive.append("every country entry and every bank entry of the bundled data")
+    nkeys = check_key_consistency(rec, banks)
+    rec.case("bank-keys-consistency", ("keys", nkeys), {"keys": nkeys})
     n = len(banks)
     chunk = max(1, n // 48)
     ctx.pmap(shard_banks, [(i, min(i + chunk, n), ctx.seed) for i in range(0, n, chunk)])
